@@ -6,7 +6,7 @@ Paths are mostly grown by walking the generated document so that they select som
 import random
 
 KEYS = ["a", "b", "c", "d", "x", "y", "z", "k"]
-ODD_KEYS = ["", "0", "-1", "a.b", "a[0]", "$", "\u00e9", " ", "x-y", "*", "A", "K", "a ", " a", "True", "None"]      # valid JSON member names all the same
+ODD_KEYS = ["", "0", "-1", "a.b", "a[0]", "$", "\u00e9", " ", "x-y", "*", "A", "K", "a ", " a", "True", "None", "50%", "%s", "1", "2"]      # valid JSON member names all the same
 RESERVED_KEYS = ["parent", "wc", "rec", "shape", "wildcard", "gwc", "recursive", "generic_wildcard"]
 SCALARS = [None, True, False, 0, 1, 2, -1, 3, 0.0, 1.5, -2.5, "", "a", "x", "12", "-3", "abc", 1.0, 2 ** 70, -(2 ** 70), "x" * 120]
 FNS = ["int", "len", "truth", "not", "neg", "abs", "first", "boom_if_str", "ident"]
@@ -165,6 +165,11 @@ class PathGen:
                     ents.append(rng.choice(KEYS))
                 else:
                     ents.append(self.rint())
+            if isinstance(v, dict) and rng.random() < 0.3:
+                # an int entry beside a member whose *name* is that number's spelling: an int never names a dict member
+                nums = [int(k) for k in v if isinstance(k, str) and k.lstrip("-").isdigit()]
+                if nums:
+                    ents.insert(rng.randint(0, len(ents)), rng.choice(nums))
             if guided and isinstance(v, dict) and v and not any(isinstance(e, str) and e in v for e in ents):
                 ents.insert(rng.randint(0, len(ents)), rng.choice(list(v.keys())))
             if guided and isinstance(v, list) and v and not any(isinstance(e, int) and -len(v) <= e < len(v) for e in ents):
